@@ -92,6 +92,62 @@ theorem encode_then_join_partial (blob : List UInt8) (d p : Int) (e : Encoded)
           rw [hb, joinWrite_eq, hfl, pad_eq _ _ hk, List.take_left']
           rfl
 
+/-- **`encode_then_reconstruct_partial`** — end to end on the EXECUTABLE model, no erasures: whenever `ErasureCode`
+    succeeds, `ReconstructAndJoinShards(shards, d, len(blob))` returns the blob (all shards present ⇒ `Reconstruct` leaves
+    them untouched). Same extra hypothesis as `encode_then_join_partial`. With erasures the executable statement rests on
+    the GF(2^8) inversion, which is tied by correspondence, and on `reconstruct_exact` for the mathematics. -/
+theorem encode_then_reconstruct_partial (blob : List UInt8) (d p : Int) (e : Encoded)
+    (h : erasureCode blob d p = .ok e) :
+    reconstructAndJoin (e.shards.map some) d blob.length = .ok blob := by
+  obtain ⟨hc, hl, hsz, htake, hj⟩ := encode_then_join_partial blob d p e h
+  -- unpack once more for the shard lengths
+  have h' := h
+  unfold erasureCode at h'
+  cases hn : newEncoder d p with
+  | err => rw [hn] at h'; simp at h'
+  | unmodelled => rw [hn] at h'; simp at h'
+  | ok =>
+    rw [hn] at h'
+    simp only at h'
+    have hd : 0 < d ∧ 0 ≤ p := by
+      unfold newEncoder at hn
+      split at hn
+      · split at hn <;> simp at hn
+      · split at hn
+        · simp at hn
+        · rename_i h1 h2
+          simp only [Bool.or_eq_true, decide_eq_true_eq, not_or, not_le, not_lt] at h2
+          omega
+    split at h'
+    · simp at h'
+    · rename_i hsize
+      split at h'
+      · simp at h'
+      · rename_i par hp
+        simp only [Res.ok.injEq] at h'
+        subst h'
+        have hk : 0 < d.toNat := by omega
+        have hall : ∀ s ∈ splitSized (pad blob d.toNat) d.toNat (shardSize blob.length d.toNat) ++ par,
+            s.length = shardSize blob.length d.toNat := by
+          intro s hs
+          rcases List.mem_append.mp hs with h1 | h1
+          · exact splitSized_lens _ _ _ (by rw [pad_length _ _ hk, Nat.mul_comm]) s h1
+          · exact encodeParity_lens _ _ _ _ _ hp s h1
+        have hne : splitSized (pad blob d.toNat) d.toNat (shardSize blob.length d.toNat) ++ par ≠ [] := by
+          intro hnil
+          have := congrArg List.length hnil
+          simp [splitSized_length] at this
+          omega
+        unfold reconstructAndJoin
+        have hlen : (((splitSized (pad blob d.toNat) d.toNat (shardSize blob.length d.toNat) ++ par).map some).length : Int) - d = p := by
+          have hpl := encodeParity_length _ _ _ _ _ hp
+          simp only [List.length_map, List.length_append, hpl, splitSized_length]; omega
+        simp only
+        rw [hlen, hn]
+        simp only
+        rw [reconstruct_all_present _ _ _ hsize hne hall]
+        exact hj
+
 example : ∃ e, erasureCode [1, 2, 3, 4, 5] 3 2 = .ok e := erasureCode_example
 
 /-! ## shard assignment -/
